@@ -107,6 +107,9 @@ func (api *API) encodeBasedOnType(
 		if !set {
 			return nil, ierrors.New("can't serialize 'string' type: no LengthPrefixType was provided")
 		}
+		if err := checkLengthPrefixTypeSupported(lengthPrefixType); err != nil {
+			return nil, ierrors.Wrap(err, "can't serialize 'string' type")
+		}
 
 		var minLen, maxLen int
 		if opts.validation {
@@ -298,6 +301,9 @@ func (api *API) encodeSlice(ctx context.Context, value reflect.Value, valueType 
 		if !set {
 			return nil, ierrors.Errorf("no LengthPrefixType was provided for slice type %s", valueType)
 		}
+		if err := checkLengthPrefixTypeSupported(lengthPrefixType); err != nil {
+			return nil, ierrors.Wrapf(err, "can't serialize slice type %s", valueType)
+		}
 		minLen, maxLen := ts.MinMaxLen()
 
 		seri := serializer.NewSerializer()
@@ -383,6 +389,9 @@ func encodeSliceOfBytes(data [][]byte, valueType reflect.Type, ts TypeSettings, 
 	lengthPrefixType, set := ts.LengthPrefixType()
 	if !set {
 		return nil, ierrors.Errorf("no LengthPrefixType was provided for type %s", valueType)
+	}
+	if err := checkLengthPrefixTypeSupported(lengthPrefixType); err != nil {
+		return nil, ierrors.Wrapf(err, "can't serialize type %s", valueType)
 	}
 
 	arrayRules := ts.ArrayRules()
